@@ -608,7 +608,8 @@ fn image_cel(layer: u16, w: u16, h: u16, pixels: Vec<u8>, z: Option<u32>) -> Vec
 
 pub fn stress_shapes(thorough: bool) -> Vec<(String, Vec<u8>)> {
     let mut v: Vec<(String, Vec<u8>)> = vec![];
-    let big = if thorough { 65535usize } else { 20000 };
+    let big = 65535usize;
+    let _ = thorough;
     // nested groups
     for depth in [1000usize, big] {
         let mut chunks = vec![];
@@ -1105,11 +1106,11 @@ pub fn campaign(run: &mut Run, focus: Focus) {
                     o.nontrivial = true;
                 }
             }
-            let path = format!("{}/evidence/replay/{}-shape-{}.ase", verif_dir(), run.prop, name);
+            let path = format!("{}/evidence/replay/{}-shape-{}.ase", out_dir(), run.prop, name);
             let is_err = r.is_err();
             run.direct(|| json!({"shape": name, "ase_file": path.clone(), "hex": if b.len() < 4000 { hex(b) } else { String::new() }}), r);
             if is_err {
-                let _ = std::fs::create_dir_all(format!("{}/evidence/replay", verif_dir()));
+                let _ = std::fs::create_dir_all(format!("{}/evidence/replay", out_dir()));
                 let _ = std::fs::write(&path, b);
             }
         }
